@@ -274,7 +274,15 @@ class C02(vlib.Driver):
                 # init_dicts as canonical JSON
                 before_init = [{n: [json.dumps(_clean(mm.init_dict), sort_keys=True) for mm in before_mods[i][n]] for n in evals}
                                for i in range(len(pop))]
-                out = m.mutation(pop, pre_training_mut=bool(pre))
+                try:
+                    out = m.mutation(pop, pre_training_mut=bool(pre))
+                except Exception as e:      # the property presupposes that a population can be mutated at all
+                    import traceback
+                    rec["kinds"] = list(m.log)
+                    rec["mutation_error"] = f"{type(e).__name__}: {e}"
+                    rec["mutation_trace"] = traceback.format_exc()[-1200:]
+                    recs.append(rec)
+                    return {"reg": reg, "states": states, "recs": recs, "aborted": True}
                 rec["kinds"] = list(m.log)
                 rec["len_before"], rec["len_after"] = len(pop), len(out)
                 rec["idx_before"], rec["idx_after"] = idx_before, [int(evo.unwrap(a).index) for a in out]
@@ -364,7 +372,14 @@ class C02(vlib.Driver):
         return out
 
     # ------------------------------------------------------------------ model term
+    def signature_of_case(self, case):
+        """site of a model/implementation disagreement that has no failing input: space family and algorithm"""
+        fam = "" if case.get("family", "vector") == "vector" else "@" + case["family"]
+        return f"{fam}:{case['algo']}{'+share' if case.get('share') else ''}"
+
     def coq_term(self, case, obs):
+        if obs.get("aborted"):
+            return None
         tab = evo.Tables()
         reg = obs["reg"]
         for st in obs["states"]:
@@ -458,9 +473,15 @@ class C02(vlib.Driver):
         for t, (op, rec) in enumerate(zip(case["ops"], recs)):
             if len(out) > 6:
                 break
-            before, after = states[t], states[t + 1]
+            before, after = states[t], states[min(t + 1, len(states) - 1)]
             k = op[0]
             what = f"step {t} {json.dumps(op)[:70]}"
+            if k == "mutate" and rec.get("mutation_error"):
+                kinds = rec.get("kinds", [])
+                out.append(Violation("mutation-raises", sig("mutationraises", (kinds[-1] if kinds else "?") + ":" + rec["mutation_error"].split(":")[0]),
+                                     f"{what}: Mutations.mutation raised while applying '{kinds[-1] if kinds else '?'}' to member {max(len(kinds) - 1, 0)}: "
+                                     f"{rec['mutation_error'][:200]}\n{rec.get('mutation_trace', '')[-700:]}"))
+                break
             if k == "mutate":
                 # population shape: size, order, one mutation function per member
                 if rec["len_before"] != rec["len_after"] or rec["idx_before"] != rec["idx_after"]:
@@ -578,6 +599,8 @@ class C02(vlib.Driver):
         return json.dumps([case["algo"], case["family"], case["share"], case["netcfg"], case["pop"], [k(o) for o in case["ops"]]])
 
     def nontrivial(self, case, obs):
+        if obs.get("aborted"):
+            return False
         ops, recs = case["ops"], obs["recs"]
         if not any(o[0] == "train" for o in ops):
             return False
